@@ -69,8 +69,11 @@ func c09FileTokens(first, n int) ring.Tokens {
 // partial write; the parent then looks at what is on disk.
 // Line: C09.file <case> <old tokens> <new tokens> <limit> <child error class> <file loads 0|1> <old|new|other> <tmp left 0|1>
 func c09FileCases(dir string) func() [][]string {
-	type fc struct{ oldN, newN, limit int }
-	cases := []fc{{3, 40, 100}, {3, 60, 100}, {20, 30, 100}, {3, 5, 100}, {3, 40, 0}, {0, 40, 100}, {3, 25, 64}, {12, 100, 256}, {3, 18, 100}, {3, 19, 100}}
+	// stale > 0: an EARLIER interrupted write left a temporary file of that many bytes behind (kept "for debugging" by
+	// design); the temporary file of the next store must start from scratch
+	type fc struct{ oldN, newN, limit, stale int }
+	cases := []fc{{3, 40, 100, 0}, {3, 60, 100, 0}, {20, 30, 100, 0}, {3, 5, 100, 0}, {3, 40, 0, 0}, {0, 40, 100, 0}, {3, 25, 64, 0}, {12, 100, 256, 0}, {3, 18, 100, 0}, {3, 19, 100, 0},
+		{3, 5, 0, 400}, {8, 2, 0, 90}, {3, 5, 100, 400}, {3, 40, 100, 700}, {3, 12, 0, 20}}
 	lines := make([][]string, len(cases))
 	var wg sync.WaitGroup
 	for k, c := range cases {
@@ -83,6 +86,13 @@ func c09FileCases(dir string) func() [][]string {
 			old := c09FileTokens(5, c.oldN)
 			if err := old.StoreToFile(path); err != nil {
 				panic(err)
+			}
+			if c.stale > 0 {
+				// what a crashed earlier write of a longer token list leaves: a prefix of its JSON document
+				junk := []byte("{\"tokens\":[" + strings.Repeat("4000000007,", c.stale/11+1))
+				if err := os.WriteFile(path+".tmp", junk[:c.stale], 0o600); err != nil {
+					panic(err)
+				}
 			}
 			nw := c09FileTokens(100000, c.newN)
 			out, err := exec.Command(os.Args[0], "C09.filechild", path, "100000", itoa(c.newN), itoa(c.limit)).Output()
@@ -103,7 +113,7 @@ func c09FileCases(dir string) func() [][]string {
 			if _, err := os.Stat(path + ".tmp"); err == nil {
 				tmp = "1"
 			}
-			lines[k] = []string{"C09.file", "file/k" + itoa(k), u32s(old), u32s(nw), itoa(c.limit), class, loads, which, tmp}
+			lines[k] = []string{"C09.file", "file/k" + itoa(k), u32s(old), u32s(nw), itoa(c.limit), class, loads, which, tmp, itoa(c.stale)}
 			os.Remove(path)
 			os.Remove(path + ".tmp")
 		}(k, c)
@@ -134,14 +144,19 @@ func c09WipeObserve(seed uint64, caseNo int, dir string) (string, bool) {
 	if r.chance(1, 2) {
 		step("hb", "-")
 	}
-	mode := (caseNo / 4) % 4 // 0: delete, timer first; 1: empty desc, timer first; 2: delete, heartbeat first; 3: empty desc, heartbeat first
-	if mode%2 == 0 {
+	// 0: delete, timer first; 1: empty desc, timer first; 2: delete, heartbeat first; 3: empty desc, heartbeat first;
+	// 4: PARTIAL loss (the store comes back with the subject's entry but without the first / without all of its tokens), timer
+	//    first — the only history on which verifyTokens has to top up an entry that is still there
+	mode := (caseNo / 4) % 5
+	if mode == 4 {
+		w.envSteal(sub.id, (caseNo/20)%2 == 1)
+	} else if mode%2 == 0 {
 		w.wipe()
 	} else {
 		w.setStore(ring.NewDesc())
 		w.steps = append(w.steps, strings.Join([]string{"E", "set", "-", "n", strconv.FormatInt(w.vnow, 10), "-", "x", "ok", "-", "-"}, "!"))
 	}
-	if mode >= 2 {
+	if mode == 2 || mode == 3 {
 		step("hb", "-")
 	}
 	done := false
@@ -378,7 +393,7 @@ func c09Prepare(w *world, sc c09Scen, r *rng, dir string, caseNo int) (files []s
 				_ = os.WriteFile(nd.path, []byte("{\"tokens\":[1,"), 0o600)
 			case "tmpgarbage": // a previous process died while writing the temporary file
 				_ = mk(c.numTokens).StoreToFile(nd.path)
-				_ = os.WriteFile(nd.path+".tmp", []byte("{\"tokens\":[9,"), 0o600)
+				_ = os.WriteFile(nd.path+".tmp", []byte("{\"tokens\":["+strings.Repeat("4000000007,", 30)), 0o600)
 			}
 			f = nd.fileEnc()
 		}
@@ -736,7 +751,7 @@ func runC09(e *env) {
 	}
 	c08Parallel(e, nf, "c09f", c09FaultCase)
 	c08Parallel(e, 80*e.scale, "c09t", c09TargetedFault)
-	c08Parallel(e, 96*e.scale, "c09w", c09WipeObserve)
+	c08Parallel(e, 120*e.scale, "c09w", c09WipeObserve)
 	c08Parallel(e, 48*e.scale, "c09x", c09WipeOther)
 	if os.Getenv("VERIF_TIMING") != "" {
 		println("fault streams done", time.Since(t0).String())
